@@ -473,6 +473,9 @@ pub fn generate(profile: &str, seed: u64) -> Scenario {
     if matches!(profile, "C03" | "C05" | "C06") && Rng::new(seed ^ 0x6A7D).chance(3, 100) {
         return gen_guard_travel(profile, seed);
     }
+    if matches!(profile, "C13" | "C04") && Rng::new(seed ^ 0x7B1C).chance(1, 100) {
+        return gen_try_big(profile, seed);
+    }
     if matches!(profile, "C01" | "C07" | "C08") && Rng::new(seed ^ 0xACC0).chance(2, 100) {
         return gen_guard_accessor(profile, seed);
     }
@@ -798,12 +801,54 @@ type Lid = usize;
 
 /// C07: member lists with and without duplicates; every construction is judged by the
 /// duplicate oracle, accepted collections are then locked once
+/// C13 / C04 with more locks than a machine word has bits: one collection over 65-80 plain
+/// locks; a holder keeps one of them (anywhere in the order) while the tester tries the whole
+/// collection (must fail, hold nothing, change nothing), then lets go and the tester tries
+/// again (must succeed)
+pub fn gen_try_big(profile: &str, seed: u64) -> Scenario {
+    let mut rng = Rng::new(seed ^ 0x7B16);
+    let n = rng.range(65, 80);
+    let rw = rng.chance(1, 2);
+    let leaves: Vec<LeafKind> = (0..n).map(|_| if rw { LeafKind::R } else { LeafKind::M }).collect();
+    let mut slots: Vec<Slot> = (0..n).map(Slot::Leaf).collect();
+    rng.shuffle(&mut slots);
+    let mut ms: Vec<usize> = (0..n).collect();
+    rng.shuffle(&mut ms);
+    let kind = *rng.pick(&[CollKind::Boxed, CollKind::Ref, CollKind::Retry]);
+    let coll = if rng.chance(1, 2) {
+        let (kind, boxed) = match kind {
+            CollKind::Ref => (CollKind::Ref, true),
+            CollKind::Retry => (CollKind::Retry, false),
+            k => (k, rng.chance(1, 2)),
+        };
+        TSpec::Slice { kind, boxed, members: ms, poison: false, array: false }
+    } else {
+        TSpec::Coll { kind, cont: *rng.pick(&[ContKind::Vec, ContKind::BoxSlice]), members: ms.into_iter().map(TSpec::Leaf).collect(), poison: false }
+    };
+    let x = rng.below(n);
+    let w = WorldSpec { leaves, units: vec![], slots, targets: vec![coll, TSpec::Leaf(x)], datas: vec![], gates: 3, tags: 0, panicky_tags: vec![] };
+    let try_api = |rng: &mut Rng| if rw && rng.chance(1, 3) { *rng.pick(&[Api::TryRead, Api::ScopedTryRead]) } else { *rng.pick(&[Api::TryLock, Api::ScopedTryLock]) };
+    let hold_api = if rw && rng.chance(1, 3) { Api::Read } else { Api::Lock };
+    let acq = |target: usize, api: Api, body: Vec<BodyOp>| Step::Acquire(Acq { target, rebuild: false, api, lent_key: false, body, release: Release::Drop, mutate: false });
+    // (the second try starts only when the holder has let go: both tries see a state that does not change under them)
+    let holder = vec![acq(1, hold_api, vec![BodyOp::GateOpen(0), BodyOp::GateWait(1)]), Step::GateOpen(2)];
+    let a1 = try_api(&mut rng);
+    let a2 = try_api(&mut rng);
+    let tester = vec![Step::GateWait(0), acq(0, a1, vec![]), Step::GateOpen(1), Step::GateWait(2), acq(0, a2, vec![BodyOp::Read(0)])];
+    let p = Params::base();
+    let mut g = Gen::new(seed, &p);
+    let mut cfg = g.cfg(200);
+    cfg.faults.try_refuse_pct = 0;
+    Scenario { world: w, program: Program { threads: vec![tester, holder] }, cfg, profile: profile.to_string() }
+}
+
 /// C07 with long lists: 17-48 locks, each checked constructor given a list that is either
 /// duplicate-free or repeats exactly one lock, the two occurrences anywhere in the list
 /// (in particular far apart, and beyond any small-list fast path); one thread locks what was built
 pub fn gen_c07_big(seed: u64) -> Scenario {
     let mut rng = Rng::new(seed ^ 0xB1607);
-    let n = rng.range(17, 48);
+    // (sometimes more locks than a machine word has bits)
+    let n = if rng.chance(1, 5) { rng.range(65, 80) } else { rng.range(17, 48) };
     let rw = rng.chance(1, 2);
     let leaves: Vec<LeafKind> = (0..n).map(|_| if rw { LeafKind::R } else { *rng.pick(&[LeafKind::M, LeafKind::R, LeafKind::PM]) }).collect();
     let mut slots: Vec<Slot> = (0..n).map(Slot::Leaf).collect();
@@ -812,7 +857,7 @@ pub fn gen_c07_big(seed: u64) -> Scenario {
     for _ in 0..rng.range(1, 3) {
         let mut ms: Vec<usize> = (0..n).collect();
         rng.shuffle(&mut ms);
-        ms.truncate(rng.range(17, n));
+        ms.truncate(if n > 64 && rng.chance(2, 3) { rng.range(65, n) } else { rng.range(17, n) });
         if rng.chance(1, 2) {
             // one repeat: first occurrence anywhere, second anywhere else
             let src = ms[rng.below(ms.len())];
@@ -837,7 +882,7 @@ pub fn gen_c07_big(seed: u64) -> Scenario {
     let w = WorldSpec { leaves, units: vec![], slots, targets, datas: vec![], gates: 0, tags: 0, panicky_tags: vec![] };
     let mut steps = Vec::new();
     for t in 0..w.targets.len() {
-        let api = if rw && rng.chance(1, 2) { *rng.pick(&[Api::Read, Api::TryRead]) } else { *rng.pick(&[Api::Lock, Api::TryLock, Api::ScopedLock]) };
+        let api = if rw && rng.chance(1, 2) { *rng.pick(&[Api::Read, Api::TryRead, Api::ScopedTryRead]) } else { *rng.pick(&[Api::Lock, Api::TryLock, Api::ScopedLock, Api::ScopedTryLock]) };
         steps.push(Step::Acquire(Acq { target: t, rebuild: rng.chance(1, 3), api, lent_key: false, body: vec![], release: Release::Drop, mutate: false }));
     }
     let p = Params::base();
